@@ -115,7 +115,7 @@ class KernelRun:
 
     def generate(self, seed, count, profiles, nops, tag):
         import kgen
-        out = os.path.join(fw.BUILD, "run", "%s-%s-%d.scripts" % (self.ctx.id, tag, seed))
+        out = os.path.join(fw.BUILD, "run", "%s-%s-%d-p%d.scripts" % (self.ctx.id, tag, seed, os.getpid()))
         kgen.generate(self.model, seed, count, profiles, nops, out, prefix=tag)
         return out
 
